@@ -5,6 +5,16 @@ returned floats (classical / see-saw <= NPA levels, NPA non-increasing, <= non-s
 value-method calls (attributes unchanged, values independent of the order; `methods_pure`,
 `value_order_independent`).
 
+Stream `npa_embedding` (scheme B, feasibility-embedding check; Lean: `reduce_preserves_val`, `npa_sound_det`,
+`classical_le_npa_model`, `ns_contains_det`, `npa_le_ns_model`, `ns_le_one`): (i) `_gen_words`, `_parse`, `_reduce` of
+toqito/helper/npa_hierarchy.py against the mirror model symbol for symbol; (ii) the cvxpy problem that
+`commuting_measurement_value_upper_bound(k)` builds is captured in-process (`cvxpy.Problem.solve` patched, restored in a
+finally), the point `(R = z z^T, K)` that the Lean model assigns to a deterministic strategy is written into the captured
+variables, and every captured constraint must hold with residual 0 while the captured objective equals the strategy's exact
+winning probability; (iii) the same for the problem of `nonsignaling_value`; (iv) numerically (1e-9) the moments of random
+commuting projective measurements on a random state must be feasible as well.  A constraint of the real code that is violated
+by a genuine strategy makes the "upper bound" unsound.
+
 Inputs of the exact part are dyadic rationals, so every float operation of the implementation is exact and
 equality with the Lean rational is demanded; a third input class has non-dyadic probabilities, there the exact
 value of the *floats* is sent to Lean and only the final accumulation is compared with 1e-12."""
@@ -19,6 +29,7 @@ from fractions import Fraction
 import numpy as np
 
 from ..common import InfraError
+from ..pool import Result, fold, run_pool, worker_driver
 
 RULE = ("games (ao, bo, ai, bi) with every size in 1..4 drawn by the seeded generator (corpus first: the two minimal "
         "games on which the enumeration bound matters, CHSH, odd-cycle-like and fractional games), predicates 0/1-valued, "
@@ -26,13 +37,24 @@ RULE = ("games (ao, bo, ai, bi) with every size in 1..4 drawn by the seeded gene
         "constraint systems with 2..4 variables and 1..4 constraints depending on random variable subsets; SDP chain and "
         "histories on games with 2 (occasionally 3) questions/answers. non-trivial = each player has >= 2 answers or >= 2 "
         "questions, the answer-set sizes differ, the question-set sizes differ and the predicate is not constant (for BCS: "
-        "some constraint does not depend on every variable and constraints differ); distinct = hash of the exact inputs")
+        "some constraint does not depend on every variable and constraints differ); distinct = hash of the exact inputs. "
+        "npa_embedding: word lists for all alphabets 1..3 (thorough 1..4) x levels {1, 2, '1+ab', '1+aab', ...}; reduction of random words "
+        "and of every product word of small word lists; embeddings on a fixed list of shapes with unequal alphabets (answers/questions in 1..3) x "
+        "levels {1, '1+ab', 2} x seeded games x all deterministic strategies (a seeded sample when there are more than 36; thorough: 400); "
+        "non-trivial there = both players have >= 2 answers, the shape is not symmetric and the strategy is not constant")
 ASSUMPTIONS = [
     "dyadic inputs make every float64 operation of classical_value / the constructor exact (products and sums stay below 2^53)",
     "SDP-based values are compared as returned floats with the solver tolerance (2e-5 interior point: CLARABEL/CVXOPT, 1e-3 SCS); "
     "their soundness as bounds (NPA relaxation, non-signalling LP) is the certificate part, not this module",
     "the see-saw start POVMs are made reproducible by passing a seed to toqito.rand.random_povm from inside the harness process",
     "multiprocessing pool branch of classical_value (> 1000 iterations) computes the same function as the loop (exercised in the thorough tier)",
+    "npa_embedding: cvxpy evaluates the captured constraint/objective expressions faithfully (Constraint.violation(), Expression.value); the "
+    "captured variables are identified by their names ('R', 'M(a, b | x, y)') for the NPA problem and, for the unnamed variables of "
+    "nonsignaling_value, by probing the linear objective (K-blocks) and by propagating the equality constraints (sigma, rho, tau); the 2x2 "
+    "blocks of nonsignaling_value receive k * tau0 for a fixed density matrix tau0 (Lean: NsFeasible is the trace image)",
+    "npa_embedding tolerances: 0/1-valued embeddings make every equality residual exact (<= 1e-12 demanded); PSD residuals (eigenvalue "
+    "computation of cvxpy) <= 1e-9; objective against the exact rational value <= 1e-12; random quantum strategies (float) <= 1e-9",
+    "the iteration order of the Python set `conf` in _gen_words is an input to the model (conf_order); the model's own order is first insertion",
 ]
 
 TOL_IP = 2e-5
@@ -453,11 +475,13 @@ def judge(ctx, task, res):
     for i, c in enumerate(calls):
         v, t = c["value"], _tol(c["solvers"])
         if c["op"] == "classical":
+            hist = _frac(m["values"][i])  # the state machine's value of this step (mirror of the code since the fix)
+            if hist != spec:
+                raise InfraError(f"Lean: history value {hist} != classicalValueFixed {spec} on {desc}")
             if abs(Fraction(v) - spec) > Fraction(1, 10 ** 12):
                 ctx.violation(f"classical_value = {v} inside a history, specification {spec}",
                               {"function": "NonlocalGame.classical_value", **info0, "impl": v, "spec": str(spec),
-                               "mirror_current_code": str(_frac(m["values"][i])), "impl_equals_current_mirror": abs(Fraction(v) - _frac(m["values"][i])) <= Fraction(1, 10 ** 12),
-                               "enum_complete": None, "theorem": "classicalValueFixed_eq_maxDet"})
+                               "impl_equals_current_mirror": False, "enum_complete": None, "theorem": "classicalValueFixed_eq_maxDet"})
         if c["op"] in first:
             v0, t0 = first[c["op"]]
             if (c["op"] == "classical" and v != v0) or abs(v - v0) > max(t, t0):
@@ -569,6 +593,533 @@ def run_sdp(ctx, tasks):
         judge(ctx, task, res)
 
 
+
+# ------------------------------------------------------------------------------------------------
+# (f) stream npa_embedding: NPA hierarchy and non-signalling program, model vs code and feasibility embedding
+
+EQ_TOL = 1e-12
+PSD_TOL = 1e-9
+QUANTUM_TOL = 1e-9
+_PL = {"": 0, "Alice": 1, "Bob": 2}
+NPA_LEVELS = {"npa1": 1, "npa1ab": "1+ab", "npa2": 2}
+# (ao, bo, ai, bi): unequal answer and question alphabets, both orders; two shapes with a trivial player
+EMBED_SHAPES = [(2, 2, 2, 2), (2, 3, 2, 2), (3, 2, 2, 2), (2, 2, 3, 2), (2, 2, 2, 3), (2, 3, 3, 2), (3, 2, 2, 3), (2, 3, 2, 3),
+                (3, 2, 3, 2), (3, 3, 2, 2), (2, 2, 3, 3), (3, 3, 3, 3), (1, 2, 2, 2), (2, 3, 1, 2)]
+
+
+def _enc_word(w):
+    return [[_PL[s.player], int(s.question or 0), int(s.answer or 0)] for s in w]
+
+
+def _level_args(k, ao, ai, bo, bi):
+    """arguments of the c07_npa_* ops; for a string level the iteration order of the Python set is passed along"""
+    from toqito.helper import npa_hierarchy as nh
+
+    args = {"ao": ao, "ai": ai, "bo": bo, "bi": bi, "k": k}
+    if isinstance(k, str):
+        args["conf_order"] = [list(c) for c in nh._parse(k)[1]]
+    return args
+
+
+def check_words(ctx, ao, ai, bo, bi, k):
+    """(i) `_parse` and `_gen_words` against `parseLevel` / `genWords`, symbol for symbol"""
+    from toqito.helper import npa_hierarchy as nh
+
+    desc = {"fn": "npa_words", "ao": ao, "ai": ai, "bo": bo, "bi": bi, "k": k}
+    ctx.case(desc, ao >= 2 and bo >= 2 and (ao != bo or ai != bi), f"npa/words/k={k}")
+    lean = ctx.lean()
+    if isinstance(k, str):
+        base, conf = nh._parse(k)
+        m = lean.ask("c07_npa_parse", {"k": k})
+        if "reject" in m:
+            raise InfraError(f"driver rejected level {k!r}: {m}")
+        if m["base"] != base or sorted(map(tuple, m["conf"])) != sorted(conf) or len(m["conf"]) != len(conf):
+            ctx.violation(f"_parse({k!r}) = {(base, sorted(conf))} differs from the model {(m['base'], m['conf'])}",
+                          {"function": "npa_hierarchy._parse", "args": desc, "impl": [base, sorted(conf)], "model": m, "theorem": "npa_sound_det (levelSpec)"})
+            return
+    impl = [_enc_word(w) for w in nh._gen_words(k, ao, ai, bo, bi)]
+    m = lean.ask("c07_npa_words", _level_args(k, ao, ai, bo, bi))
+    if "reject" in m:
+        raise InfraError(f"driver rejected {desc}: {m}")
+    if impl != m["words"]:
+        first = next((i for i, (u, v) in enumerate(zip(impl, m["words"])) if u != v), min(len(impl), len(m["words"])))
+        ctx.violation(f"_gen_words{(k, ao, ai, bo, bi)}: {len(impl)} words, model {len(m['words'])}; first difference at position {first} "
+                      f"(the Lean soundness theorem speaks about the model's word list: the tie is broken)",
+                      {"function": "npa_hierarchy._gen_words", "args": desc, "impl": impl[first:first + 3], "model": m["words"][first:first + 3],
+                       "theorem": "npa_sound_det (genWords)"})
+
+
+def check_reduce_batch(ctx, words, tag):
+    """(i) `_reduce` against `reduceWord` on a batch of words given as lists of [player, question, answer]"""
+    from toqito.helper import npa_hierarchy as nh
+
+    names = {0: "", 1: "Alice", 2: "Bob"}
+    lean = ctx.lean()
+    outs = lean.ask_many([("c07_npa_reduce", {"word": w}) for w in words])
+    for w, m in zip(words, outs):
+        tup = tuple(nh.Symbol(names[p], q, a) if p else nh.Symbol("") for p, q, a in w)
+        impl = _enc_word(nh._reduce(tup))
+        players = {p for p, _, _ in w}
+        ctx.case({"fn": "npa_reduce", "word": w}, len(w) >= 3 and {1, 2} <= players, f"npa/reduce/{tag}")
+        if impl != m["word"]:
+            ctx.violation(f"_reduce({w}) = {impl}, model reduceWord gives {m['word']}",
+                          {"function": "npa_hierarchy._reduce", "args": {"fn": "npa_reduce", "word": w}, "impl": impl, "model": m["word"],
+                           "theorem": "reduce_preserves_val"})
+
+
+def words_and_reduce(ctx, quick):
+    rng = ctx.rng
+    top = 3 if quick else 4
+    levels = [1, 2, "1+ab", "1+aab"] if quick else [1, 2, 3, "1+ab", "1+aab", "1+ab+aab", "2+aab", "1+abb+ab", "2+aabb", "1+b+bb"]
+    for ao, ai, bo, bi in itertools.product(range(1, top + 1), repeat=4):
+        for k in levels:
+            if k == 3 and (ao - 1) * ai + (bo - 1) * bi > 9:
+                continue
+            check_words(ctx, ao, ai, bo, bi, k)
+    # random words over a small alphabet (identity symbols included), lengths 0..7
+    batch = []
+    for _ in range(1500 if quick else 12000):
+        n = int(rng.integers(0, 8))
+        nq, na = int(rng.integers(1, 3)), int(rng.integers(1, 4))
+        w = []
+        for _ in range(n):
+            p = int(rng.choice([0, 1, 1, 1, 2, 2, 2]))
+            w.append([0, 0, 0] if p == 0 else [p, int(rng.integers(nq)), int(rng.integers(na))])
+        batch.append(w)
+    check_reduce_batch(ctx, batch, "random")
+    # the words the constraint loop really reduces: reversed(words[i]) + words[j]
+    from toqito.helper import npa_hierarchy as nh
+    for (ao, ai, bo, bi), k in (((2, 2, 3, 2), 2), ((3, 2, 2, 1), "1+ab"), ((3, 1, 3, 2), 2)) + (() if quick else (((3, 2, 3, 2), 2), ((2, 3, 3, 2), "1+aab"))):
+        ws = [_enc_word(w) for w in nh._gen_words(k, ao, ai, bo, bi)]
+        prods = [list(reversed(ws[i])) + ws[j] for i in range(len(ws)) for j in range(i, len(ws))]
+        if quick and len(prods) > 700:
+            prods = [prods[int(t)] for t in rng.choice(len(prods), size=700, replace=False)]
+        check_reduce_batch(ctx, prods, "products")
+
+
+class _Captured(Exception):
+    pass
+
+
+def _capture(fn):
+    """Runs fn() with cvxpy.Problem.solve replaced (inside this process only, restored afterwards) by a recorder that keeps the
+    Problem object and aborts the call; returns the recorded problems."""
+    import cvxpy
+
+    captured = []
+    orig = cvxpy.Problem.solve
+
+    def fake(self, *a, **kw):
+        captured.append(self)
+        raise _Captured()
+
+    cvxpy.Problem.solve = fake
+    try:
+        try:
+            fn()
+        except _Captured:
+            pass
+    finally:
+        cvxpy.Problem.solve = orig
+    return captured
+
+
+def _bad_constraints(P, psd_tol=PSD_TOL, eq_tol=EQ_TOL):
+    """constraints of the captured problem that the current variable values violate: (index, kind, residual, text)"""
+    bad = []
+    for idx, c in enumerate(P.constraints):
+        v = c.violation()
+        r = float(np.max(np.abs(v))) if np.size(v) else 0.0
+        kind = type(c).__name__
+        if not np.isfinite(r) or r > (psd_tol if kind == "PSD" else eq_tol):
+            bad.append([idx, kind, r, str(c)[:200]])
+    return bad
+
+
+def _npa_vars(P, shape):
+    """(R, {(x, y): M_xy}, how) of the captured NPA problem"""
+    import re
+
+    ao, bo, ai, bi = shape
+    named, rvar = {}, None
+    for v in P.variables():
+        nm = v.name()
+        mm = re.search(r"\|\s*(\d+)\s*,\s*(\d+)\s*\)", nm)
+        if nm == "R":
+            rvar = v
+        elif mm and tuple(v.shape) == (ao, bo):
+            named[(int(mm.group(1)), int(mm.group(2)))] = v
+    if rvar is not None and sorted(named) == [(x, y) for x in range(ai) for y in range(bi)] and len(P.variables()) == ai * bi + 1:
+        return rvar, named, "names"
+    objv = sorted(P.objective.variables(), key=lambda v: v.id)
+    rest = [v for v in P.variables() if all(v is not o for o in objv)]
+    if len(objv) == ai * bi and len(rest) == 1 and all(tuple(v.shape) == (ao, bo) for v in objv):
+        return rest[0], {(x, y): objv[x * bi + y] for x in range(ai) for y in range(bi)}, "creation-order"
+    raise InfraError(f"cannot identify the variables of the captured NPA problem: {[(v.name(), v.shape) for v in P.variables()]}")
+
+
+def _game_of(task):
+    shape = tuple(task["shape"])
+    prob = np.array(task["prob"], dtype=float).reshape(shape[2], shape[3])
+    pred = np.array(task["pred"], dtype=float).reshape(shape)
+    return shape, prob, pred
+
+
+def _strategy_nontrivial(shape, f, g):
+    ao, bo, ai, bi = shape
+    return bool(ao >= 2 and bo >= 2 and (ao != bo or ai != bi) and (len(set(f)) > 1 or len(set(g)) > 1 or ai == 1 or bi == 1))
+
+
+def _embed_desc(fn, task, f, g):
+    return {"fn": fn, "shape": list(task["shape"]), "k": task.get("k"), "kind": task["kind"], "prob": [_q(x) for x in task["prob"]],
+            "pred": [_q(x) for x in task["pred"]], "f": list(f), "g": list(g)}
+
+
+def work_npa_embed(task, res):
+    """(ii) capture the problem of commuting_measurement_value_upper_bound(k) and embed deterministic strategies into it"""
+    import warnings
+    from toqito.nonlocal_games.nonlocal_game import NonlocalGame
+    from toqito.helper import npa_hierarchy as nh
+
+    warnings.filterwarnings("ignore")
+    shape, prob, pred = _game_of(task)
+    ao, bo, ai, bi = shape
+    k = task["k"]
+    drv = worker_driver()
+    base_desc = _embed_desc("npa_embed", task, [], [])
+    try:
+        game = NonlocalGame(prob.copy(), pred.copy())
+        probs = _capture(lambda: game.commuting_measurement_value_upper_bound(k))
+    except Exception as e:  # noqa: BLE001
+        res.violation(f"commuting_measurement_value_upper_bound({k!r}) raised {type(e).__name__}: {str(e)[:200]} while building its problem for shape {shape}",
+                      {"function": "NonlocalGame.commuting_measurement_value_upper_bound", "args": base_desc, "impl": repr(e)[:300], "theorem": "npa_sound_det"})
+        return
+    if len(probs) != 1:
+        raise InfraError(f"expected one cvxpy problem from commuting_measurement_value_upper_bound, captured {len(probs)}")
+    P = probs[0]
+    rvar, mvars, how = _npa_vars(P, shape)
+    res.count(f"npa/embed/variables-identified-by-{how}")
+    largs = _level_args(k, ao, ai, bo, bi)
+    gargs = {**largs, "prob": _qlist(prob), "pred": _qlist(pred)}
+    # model vs code: size of the moment matrix and number of constraints (differences are notes, not alarms)
+    mc = drv.ask("c07_npa_constraints", largs)
+    if "reject" in mc:
+        raise InfraError(f"driver rejected {largs}: {mc}")
+    n_code = len(P.constraints)
+    n_zero_code = 0
+    for c in P.constraints:
+        if type(c).__name__ == "Equality" and any(a.is_constant() and not np.any(a.value) for a in c.args):
+            n_zero_code += 1
+    dim_code = int(rvar.shape[0])
+    if (n_code, n_zero_code, dim_code) == (mc["count"], mc["n_zero"], mc["dim"]):
+        res.count("npa/embed/constraint-counts-equal-model")
+    else:
+        res.count("npa/embed/constraint-counts-differ-from-model")
+        res.note(f"npa_constraints shape={shape} k={k!r}: code has {n_code} constraints / {n_zero_code} forced zeros / dim {dim_code}, "
+                 f"model {mc['count']} / {mc['n_zero']} / {mc['dim']} (informational)")
+    code_words = nh._gen_words(k, ao, ai, bo, bi)
+    first = True
+    for f, g in task["strategies"]:
+        desc = _embed_desc("npa_embed", task, f, g)
+        res.case(desc, _strategy_nontrivial(shape, f, g), f"npa/embed/k={k}")
+        m = drv.ask("c07_npa_embed", {**gargs, "f": list(f), "g": list(g), "self_check": first})
+        if "reject" in m:
+            raise InfraError(f"driver rejected {desc}: {m}")
+        if first and m["model_violated"]:
+            raise InfraError(f"Lean model: the embedded point violates model constraints {m['model_violated'][:3]} (contradicts npa_sound_det) on {desc}")
+        z = np.array([float(_frac(v)) for v in m["z"]])
+        if len(z) != dim_code or len(code_words) != dim_code:
+            res.violation(f"moment matrix of the code has size {dim_code}, the model's word list has {len(z)} words (k={k!r}, shape {shape})",
+                          {"function": "npa_constraints", "args": desc, "impl": dim_code, "model": len(z), "theorem": "npa_sound_det"})
+            return
+        rvar.save_value(np.outer(z, z).astype(complex))
+        for (x, y), v in mvars.items():
+            kxy = np.zeros((ao, bo))
+            kxy[f[x], g[y]] = 1.0
+            v.save_value(kxy)
+        bad = _bad_constraints(P)
+        obj = float(P.objective.expr.value)
+        exact = _frac(m["objective"])
+        if _frac(m["det_value"]) != exact:
+            raise InfraError(f"Lean: objective {m['objective']} != detValueN {m['det_value']} (proved equal) on {desc}")
+        if bad:
+            res.violation(
+                f"npa_constraints(k={k!r}) for shape (ao,bo,ai,bi)={shape}: the deterministic strategy f={list(f)}, g={list(g)} (moment matrix z z^T, "
+                f"z = values of the words; K = its behaviour) violates {len(bad)} of the {n_code} constraints the code emits, e.g. {bad[0]} — "
+                f"the relaxation cuts off a classical strategy, so its optimum is not an upper bound",
+                {"function": "npa_constraints / commuting_measurement_value_upper_bound", "args": desc, "violated": bad[:6], "z": [int(t) for t in z],
+                 "theorem": "npa_sound_det, classical_le_npa_model"})
+        if abs(Fraction(obj) - exact) > Fraction(1, 10 ** 12):
+            res.violation(
+                f"commuting_measurement_value_upper_bound({k!r}): captured objective at the behaviour of f={list(f)}, g={list(g)} is {obj!r}, "
+                f"the strategy wins with probability {exact} = {float(exact)!r}",
+                {"function": "NonlocalGame.commuting_measurement_value_upper_bound (objective)", "args": desc, "impl": obj, "model": str(exact),
+                 "theorem": "npa_sound_det (objective = detValue)"})
+        if first:
+            # negative control: the evaluation machinery must notice a point that is not feasible
+            r2 = np.outer(z, z).astype(complex)
+            r2[0, 0] = 2.0
+            rvar.save_value(r2)
+            if not _bad_constraints(P):
+                raise InfraError("negative control: a moment matrix with R[0,0] = 2 passed every captured constraint")
+            res.count("npa/embed/negative-control-detected")
+        first = False
+    # (iv) numerically: moments of random commuting projective measurements on a random state
+    for seed in task.get("quantum_seeds", []):
+        _quantum_embed(task, res, P, rvar, mvars, code_words, seed)
+
+
+def _rand_unitary(rng, d):
+    q, r = np.linalg.qr(rng.normal(size=(d, d)) + 1j * rng.normal(size=(d, d)))
+    return q * (np.diag(r) / np.abs(np.diag(r)))
+
+
+def _rand_projective(rng, d, n_out):
+    """n_out orthogonal projectors summing to the identity of dimension d (ranks from a random composition; rank 0 allowed)"""
+    cuts = np.sort(rng.integers(0, d + 1, size=n_out - 1))
+    ranks = np.diff(np.concatenate([[0], cuts, [d]]))
+    u = _rand_unitary(rng, d)
+    out, pos = [], 0
+    for r in ranks:
+        cols = u[:, pos:pos + int(r)]
+        out.append(cols @ cols.conj().T)
+        pos += int(r)
+    return out
+
+
+def _quantum_embed(task, res, P, rvar, mvars, code_words, seed):
+    shape, prob, pred = _game_of(task)
+    ao, bo, ai, bi = shape
+    rng = np.random.default_rng([7, seed])
+    da, db = int(rng.integers(max(2, ao), ao + 2)), int(rng.integers(max(2, bo), bo + 2))
+    a_ops = [[np.kron(p, np.eye(db)) for p in _rand_projective(rng, da, ao)] for _ in range(ai)]
+    b_ops = [[np.kron(np.eye(da), p) for p in _rand_projective(rng, db, bo)] for _ in range(bi)]
+    psi = rng.normal(size=da * db) + 1j * rng.normal(size=da * db)
+    psi /= np.linalg.norm(psi)
+    vecs = []
+    for w in code_words:
+        v = psi
+        for s in reversed(w):
+            if s.player == "Alice":
+                v = a_ops[s.question][s.answer] @ v
+            elif s.player == "Bob":
+                v = b_ops[s.question][s.answer] @ v
+        vecs.append(v)
+    vmat = np.array(vecs).T
+    rvar.save_value(vmat.conj().T @ vmat)
+    value = 0.0
+    for (x, y), v in mvars.items():
+        kxy = np.array([[float(np.real(psi.conj() @ (a_ops[x][a] @ (b_ops[y][b] @ psi)))) for b in range(bo)] for a in range(ao)])
+        v.save_value(kxy)
+        value += prob[x, y] * float(np.sum(pred[:, :, x, y] * kxy))
+    desc = {**_embed_desc("npa_quantum", task, [], []), "seed": int(seed), "dims": [da, db]}
+    res.case(desc, ao >= 2 and bo >= 2 and (ao != bo or ai != bi), f"npa/quantum/k={task['k']}")
+    bad = _bad_constraints(P, psd_tol=QUANTUM_TOL, eq_tol=QUANTUM_TOL)
+    obj = float(P.objective.expr.value)
+    if bad:
+        res.violation(
+            f"npa_constraints(k={task['k']!r}) for shape {shape}: the moments of random commuting projective measurements (dims {da}x{db}, seed {seed}) "
+            f"violate {len(bad)} emitted constraints beyond {QUANTUM_TOL}, e.g. {bad[0]} — a quantum commuting strategy is cut off",
+            {"function": "npa_constraints (quantum strategy)", "args": desc, "violated": bad[:6],
+             "theorem": "soundness of the NPA relaxation for commuting projective strategies (not proved in Lean; numerical check)"})
+    if abs(obj - value) > QUANTUM_TOL:
+        res.violation(f"captured NPA objective {obj!r} differs from the winning probability {value!r} of the quantum strategy (seed {seed})",
+                      {"function": "commuting_measurement_value_upper_bound (objective, quantum strategy)", "args": desc, "impl": obj, "model": value,
+                       "theorem": "objective = winning probability"})
+
+
+TAU0 = [np.array([[1.0, 0.0], [0.0, 0.0]], dtype=complex), np.array([[0.75, 0.25 - 0.25j], [0.25 + 0.25j, 0.25]], dtype=complex)]
+
+
+def _ns_identify(P, shape, prob, pred):
+    """{(a, b, x, y): K-block variable} of the captured nonsignaling_value problem.  The variables carry no names: the blocks are the
+    variables of the objective; block v belongs to (a, b, x, y) when the objective at "v = E11, everything else 0" equals
+    prob[x, y] * pred[a, b, x, y].  When these products do not identify the blocks (ties, zeros, or an objective that is wrong) the
+    creation order of the variables (loops a, b, x, y) is used and reported."""
+    ao, bo, ai, bi = shape
+    objv = sorted(P.objective.variables(), key=lambda v: v.id)
+    idx = [(a, b, x, y) for a in range(ao) for b in range(bo) for x in range(ai) for y in range(bi)]
+    if len(objv) != len(idx) or any(tuple(v.shape) != (2, 2) for v in objv):
+        raise InfraError(f"nonsignaling_value: expected {len(idx)} 2x2 blocks in the objective, found {[(v.shape) for v in objv][:5]}... ({len(objv)})")
+    by_order = dict(zip(idx, objv))
+    target = {}
+    for t in idx:
+        a, b, x, y = t
+        target.setdefault(Fraction(float(prob[x, y])) * Fraction(float(pred[a, b, x, y])), []).append(t)
+    if any(len(v) > 1 for v in target.values()) or Fraction(0) in target:
+        return by_order, "creation-order"
+    zero = np.zeros((2, 2), dtype=complex)
+    for v in P.variables():
+        v.save_value(zero)
+    found = {}
+    for v in objv:
+        v.save_value(TAU0[0])
+        c = Fraction(float(P.objective.expr.value))
+        v.save_value(zero)
+        hit = [t for q, ts in target.items() for t in ts if abs(q - c) <= Fraction(1, 10 ** 13)]
+        if len(hit) != 1 or hit[0] in found:
+            return by_order, "creation-order"
+        found[hit[0]] = v
+    return found, "objective-probing"
+
+
+def _propagate(P):
+    """give a value to every variable that an equality constraint `expression == variable` determines (sigma, rho, tau)"""
+    import cvxpy
+
+    changed = True
+    while changed:
+        changed = False
+        for c in P.constraints:
+            if type(c).__name__ != "Equality":
+                continue
+            lhs, rhs = c.args
+            for u, w in ((lhs, rhs), (rhs, lhs)):
+                if isinstance(w, cvxpy.Variable) and w.value is None and u.value is not None:
+                    w.save_value(np.array(u.value, dtype=complex))
+                    changed = True
+    return [v for v in P.variables() if v.value is None]
+
+
+def work_ns_embed(task, res):
+    """(iii) capture the problem of nonsignaling_value and embed deterministic behaviours into it"""
+    import warnings
+    from toqito.nonlocal_games.nonlocal_game import NonlocalGame
+
+    warnings.filterwarnings("ignore")
+    shape, prob, pred = _game_of(task)
+    ao, bo, ai, bi = shape
+    drv = worker_driver()
+    base_desc = _embed_desc("ns_embed", task, [], [])
+    try:
+        game = NonlocalGame(prob.copy(), pred.copy())
+        probs = _capture(lambda: game.nonsignaling_value())
+    except Exception as e:  # noqa: BLE001
+        res.violation(f"nonsignaling_value raised {type(e).__name__}: {str(e)[:200]} while building its problem for shape {shape}",
+                      {"function": "NonlocalGame.nonsignaling_value", "args": base_desc, "impl": repr(e)[:300], "theorem": "ns_contains_det"})
+        return
+    if len(probs) != 1:
+        raise InfraError(f"expected one cvxpy problem from nonsignaling_value, captured {len(probs)}")
+    P = probs[0]
+    kvars, how = _ns_identify(P, shape, prob, pred)
+    res.count(f"ns/embed/blocks-identified-by-{how}")
+    gargs = {"ao": ao, "ai": ai, "bo": bo, "bi": bi, "k": 1, "prob": _qlist(prob), "pred": _qlist(pred)}
+    kset = {id(v) for v in kvars.values()}
+    first = True
+    for n, (f, g) in enumerate(task["strategies"]):
+        desc = _embed_desc("ns_embed", task, f, g)
+        res.case(desc, _strategy_nontrivial(shape, f, g), "ns/embed")
+        m = drv.ask("c07_npa_embed", {**gargs, "f": list(f), "g": list(g), "self_check": False})
+        if "reject" in m:
+            raise InfraError(f"driver rejected {desc}: {m}")
+        exact = _frac(m["objective"])
+        tau0 = TAU0[n % 2]
+        for v in P.variables():
+            if id(v) not in kset:
+                v.value = None
+        for (a, b, x, y), v in kvars.items():
+            v.save_value(tau0 * (1.0 if (f[x] == a and g[y] == b) else 0.0))
+        unset = _propagate(P)
+        if unset:
+            res.count("ns/embed/variables-not-determined-by-equalities", len(unset))
+            for v in unset:
+                v.save_value(np.zeros(v.shape, dtype=complex))
+        bad = _bad_constraints(P)
+        obj = float(P.objective.expr.value)
+        if bad:
+            res.violation(
+                f"nonsignaling_value for shape (ao,bo,ai,bi)={shape}: the deterministic behaviour of f={list(f)}, g={list(g)} (blocks K = [a=f x][b=g y]·tau0, "
+                f"marginal blocks from the equality constraints) violates {len(bad)} of the {len(P.constraints)} constraints, e.g. {bad[0]} — "
+                f"the non-signalling program excludes a classical strategy",
+                {"function": "NonlocalGame.nonsignaling_value", "args": desc, "violated": bad[:6], "identified_by": how, "theorem": "ns_contains_det"})
+        if abs(Fraction(obj) - exact) > Fraction(1, 10 ** 12):
+            res.violation(
+                f"nonsignaling_value: captured objective at the behaviour of f={list(f)}, g={list(g)} is {obj!r}, the strategy wins with probability {exact} = {float(exact)!r}",
+                {"function": "NonlocalGame.nonsignaling_value (objective)", "args": desc, "impl": obj, "model": str(exact), "identified_by": how,
+                 "theorem": "ns_contains_det (objective = detValue)"})
+        if first:
+            any_k = next(iter(kvars.values()))
+            any_k.save_value(np.array([[-1.0, 0], [0, 0]], dtype=complex))
+            if not _bad_constraints(P):
+                raise InfraError("negative control: a block K = -E11 passed every captured constraint of nonsignaling_value")
+            res.count("ns/embed/negative-control-detected")
+        first = False
+
+
+def _all_strategies(shape):
+    ao, bo, ai, bi = shape
+    return [(list(f), list(g)) for f in itertools.product(range(ao), repeat=ai) for g in itertools.product(range(bo), repeat=bi)]
+
+
+def _pick_strategies(rng, shape, cap):
+    ao, bo, ai, bi = shape
+    total = ao ** ai * bo ** bi
+    if total <= cap:
+        return _all_strategies(shape)
+    out = []
+    seen = set()
+    while len(out) < cap:
+        f = [int(t) for t in rng.integers(0, ao, size=ai)]
+        g = [int(t) for t in rng.integers(0, bo, size=bi)]
+        if (tuple(f), tuple(g)) not in seen:
+            seen.add((tuple(f), tuple(g)))
+            out.append((f, g))
+    return out
+
+
+def _generic_game(rng, shape):
+    """all products prob[x,y] * pred[a,b,x,y] distinct and non-zero (dyadic): identifies the blocks of the objective"""
+    ao, bo, ai, bi = shape
+    n = ao * bo * ai * bi
+    while True:
+        w = rng.integers(1, 8, size=(ai, bi)).astype(float)
+        m = 2.0 ** int(np.ceil(np.log2(w.sum())))
+        prob = w / m
+        prob[0, 0] += 1.0 - prob.sum()
+        pred = (rng.permutation(256)[:n].reshape(shape) + 1) / 256.0
+        prods = {Fraction(float(prob[x, y])) * Fraction(float(pred[a, b, x, y])) for a in range(ao) for b in range(bo) for x in range(ai) for y in range(bi)}
+        if len(prods) == n and prob.min() > 0:
+            return prob, pred
+
+
+def embed_tasks(ctx, quick):
+    rng = ctx.rng
+    cap = 36 if quick else 400
+    npa, ns = [], []
+    for shape in EMBED_SHAPES:
+        ao, bo, ai, bi = shape
+        games = []
+        kind = str(rng.choice(["01", "frac", "rational"]))
+        games.append((kind, rand_prob(rng, ai, bi, kind), rand_pred(rng, shape, "frac" if kind == "frac" else "01")))
+        prob, pred = _generic_game(rng, shape)
+        games.append(("generic", prob, pred))
+        if not quick:
+            games.append(("01", rand_prob(rng, ai, bi, "01"), mod_game(*shape)))
+        for kind, prob, pred in games:
+            base = {"shape": list(shape), "kind": kind, "prob": np.asarray(prob, dtype=float).reshape(-1).tolist(),
+                    "pred": np.asarray(pred, dtype=float).reshape(-1).tolist()}
+            for k in (1, "1+ab", 2):
+                if quick and k == 2 and shape == (3, 3, 3, 3) and kind != "generic":
+                    continue
+                npa.append({**base, "k": k, "strategies": _pick_strategies(rng, shape, cap),
+                            "quantum_seeds": [int(t) for t in rng.integers(0, 2 ** 31, size=2 if quick else 6)]})
+            ns.append({**base, "strategies": _pick_strategies(rng, shape, cap)})
+    if not quick:
+        for k in ("1+aab", "1+ab+aab"):
+            for shape in ((2, 3, 2, 2), (3, 2, 2, 3)):
+                prob, pred = _generic_game(rng, shape)
+                npa.append({"shape": list(shape), "kind": "generic", "prob": prob.reshape(-1).tolist(), "pred": pred.reshape(-1).tolist(), "k": k,
+                            "strategies": _pick_strategies(rng, shape, cap), "quantum_seeds": [int(t) for t in rng.integers(0, 2 ** 31, size=4)]})
+    return npa, ns
+
+
+def npa_embedding(ctx, quick):
+    words_and_reduce(ctx, quick)
+    npa, ns = embed_tasks(ctx, quick)
+    run_pool(ctx, work_npa_embed, npa)
+    run_pool(ctx, work_ns_embed, ns)
+
+
 # ------------------------------------------------------------------------------------------------
 
 
@@ -595,6 +1146,7 @@ def run(ctx, model_ok=True):
                 check_classical(ctx, prob, np.array(bits).reshape(shape), 1, "01", "exhaustive")
         ctx.extra["exhaustive_small_space"] = "all 4096 0/1 predicates on shapes (2,3,2,1) and (3,2,1,2)"
     run_sdp(ctx, tasks)
+    npa_embedding(ctx, quick)
 
 
 def replay(ctx, rec):
@@ -611,6 +1163,19 @@ def replay(ctx, rec):
         check_odometer(ctx, a["old"], a["lim"])
     elif fn == "from_bcs_game":
         check_bcs(ctx, a["n"], a["constraints"], a.get("dtype", "int"))
+    elif fn == "npa_words":
+        check_words(ctx, a["ao"], a["ai"], a["bo"], a["bi"], a["k"])
+    elif fn == "npa_reduce":
+        check_reduce_batch(ctx, [a["word"]], "replay")
+    elif fn in ("npa_embed", "ns_embed", "npa_quantum"):
+        task = {"shape": a["shape"], "kind": a["kind"], "k": a.get("k"), "prob": [float(_frac(x)) for x in a["prob"]],
+                "pred": [float(_frac(x)) for x in a["pred"]], "strategies": [(a["f"], a["g"])] if a.get("f") else [],
+                "quantum_seeds": [a["seed"]] if fn == "npa_quantum" else []}
+        if fn == "npa_quantum":
+            task["strategies"] = [([0] * a["shape"][2], [0] * a["shape"][3])]
+        res = Result()
+        (work_ns_embed if fn == "ns_embed" else work_npa_embed)(task, res)
+        fold(ctx, res)
     elif fn in ("chain", "history"):
         shape = tuple(a["shape"])
         prob = np.array([float(_frac(x)) for x in a["prob"]]).reshape(shape[2], shape[3])
